@@ -82,6 +82,20 @@ def main():
                       + traceback.format_exc()[-600:],
                       {'traceback': traceback.format_exc()},
                       found_input=False)
+    # fail closed: an obligation that is not discharged must show up as a
+    # violation even when the property module forgot to report one
+    n_coq = len([1 for n, _, _ in res.obligations
+                 if n.startswith(('coq-build', 'hygiene', 'theorem '))])
+    late_bad = [n for n, ok, _ in res.obligations[n_coq:]
+                if not ok and not n.startswith(('coq-build', 'hygiene',
+                                                'theorem '))]
+    if late_bad and not any(v['class'] is None for v in res.violations):
+        res.violation('correspondence',
+                      'obligations not discharged: ' + '; '.join(late_bad),
+                      {'theorem_or_correspondence': late_bad,
+                       'details': [d for n, ok, d in res.obligations
+                                   if n in late_bad]},
+                      found_input=False)
     cmd = f'./check {prop} --tier {tier} --seed {args.seed}'
     sys.exit(common.finish(res, cmd))
 
